@@ -96,13 +96,12 @@ package headers
 //@   requires b != nil && header != nil && len(b.headers) >= 1 && last(*b) != nil && last(*b).AccumulatedWork != nil && b.heightsMap != nil
 //@   requires [C02.bits-domain,C15.bits-domain] validBits(header.Bits)
 //@   ensures [C01] result == (old(last(*b).Hash) == header.PrevBlock)
-//@   ensures [C01,C08] !result ==> b.headers == old(b.headers) && forall(o, 0, len(b.headers), b.headers[o] == old(b.headers[o])) && forallv(k, bitcoin.Hash32, has(b.heightsMap, k) == old(has(b.heightsMap, k)) && b.heightsMap[k] == old(b.heightsMap[k]))
+//@   ensures [C01,C08] !result ==> b.headers == old(b.headers) && forall(o, 0, len(b.headers), b.headers[o] == old(b.headers[o])) && mapsame(b.heightsMap)
 //@   ensures [C01] result ==> len(b.headers) == old(len(b.headers)) + 1 && off(b.headers) == ite(arr(b.headers) == old(arr(b.headers)), old(off(b.headers)), 0) && (arr(b.headers) == old(arr(b.headers)) || fresh(b.headers))
 //@   ensures [C01,C09] result ==> forall(o, 0, old(len(b.headers)), b.headers[o] == old(b.headers[o]))
 //@   ensures [C01,C09] result ==> fresh(last(*b)) && last(*b).Header == header && last(*b).Hash == hashOf(header) && last(*b).AccumulatedWork != nil && fresh(last(*b).AccumulatedWork)
 //@   ensures [C01.work] result ==> W(last(*b)) == old(W(last(*b))) + workOf(header.Bits)
-//@   ensures [C09.map] result ==> has(b.heightsMap, hashOf(header)) && b.heightsMap[hashOf(header)] == tipH(*b)
-//@   ensures [C09.map] result ==> forallv(k, bitcoin.Hash32, k != hashOf(header) ==> has(b.heightsMap, k) == old(has(b.heightsMap, k)) && b.heightsMap[k] == old(b.heightsMap[k]))
+//@   ensures [C09.map] result ==> mapupd(b.heightsMap, hashOf(header), tipH(*b))
 //@   modifies b.headers, elems(b.headers), mapof(b.heightsMap)
 
 //@ func (Branch).AtHeight
@@ -150,26 +149,64 @@ package headers
 //@ trusted func (*Branch).IntersectHash
 //@   modifies nothing
 
+//@ ufunc bitsOf(t int, max uint32) uint32
+
 //@ trusted func (*Repository).sendBranchUpdate
+//@   ensures result != nil ==> errFrom(result, (*Repository).sendBranchUpdate)
 //@   modifies allchans(*wire.BlockHeader)
+
+// knownIn: some branch of the list knows the hash along its parent chain (the meaning of Branches.Find != nil).
+//@ pure func knownIn(bs Branches, k bitcoin.Hash32) bool = exists(i, 0, len(bs), findH(bs[i], k) != -1)
+// holderAt: bs[j] is the branch Branches.Find returns for k (the first one that knows it).
+//@ pure func holderAt(bs Branches, k bitcoin.Hash32, j int) bool = 0 <= j && j < len(bs) && findH(bs[j], k) != -1 && forall(i, 0, j, findH(bs[i], k) == -1)
+//@ pure func isSplitAfter(r *Repository, k bitcoin.Hash32) bool = exists(s, 0, len(r.splits), r.splits[s].AfterHash == k)
+//@ pure func isSplitAt(r *Repository, k bitcoin.Hash32, h int) bool = exists(s, 0, len(r.splits), r.splits[s].Height == h && r.splits[s].AfterHash == k)
+//@ pure func wrongRequired(r *Repository, k bitcoin.Hash32, h int) bool = r.requiredSplit != nil && h == r.requiredSplit.Height && r.requiredSplit.AfterHash != k
+//@ pure func markedInvalid(r *Repository, k bitcoin.Hash32) bool = exists(i, 0, len(r.invalidHashes), r.invalidHashes[i] == k)
+//@ pure func heightVia(bs Branches, k bitcoin.Hash32, j int) int = findH(bs[j], k) + 1
+// splitRefused / bitsRefused ... : the refusing rows of the verdict table for a header whose parent is held by bs[j].
+//@ pure func splitRefused(r *Repository, k bitcoin.Hash32, h int) bool = !r.disableSplitProtection && (isSplitAt(r, k, h) || wrongRequired(r, k, h))
+//@ pure func needsDAA(r *Repository, h int) bool = h >= 556767 && !r.disableDifficulty
+//@ pure func tooDeep(r *Repository, b *Branch, ph int, prev bitcoin.Hash32) bool = last(*b).Hash != prev && tipH(*r.longest) - ph > r.config.MaxBranchDepth
 
 //@ func (*Repository).ProcessHeader
 //@   requires repoInv(repo) && header != nil
 //@   let hash = hashOf(header)
 //@   let bits = header.Bits
+//@   let prev = header.PrevBlock
+//@   let vb = validBits(header.Bits)
+//@   let wv = repo.disableDifficulty || workValid(hashOf(header), header.Bits)
+//@   let pk = knownIn(repo.branches, header.PrevBlock)
+//@   let known = knownIn(repo.branches, hashOf(header))
 //@   ensures [C01.inv-basic] repoBasic(repo)
 //@   ensures [C01.inv-tips] repoTips(repo)
 //@   ensures [C01.tip-maximal] repoMax(repo)
 //@   ensures [C01.inv-sep] repoSep(repo)
-//@   ensures [C02.bits-decodable,C08.bad-bits,C15.bits-decodable] !validBits(bits) ==> result == ErrInvalidTarget
-//@   ensures [C02.work,C08.not-enough-work] validBits(bits) && !old(repo.disableDifficulty) && !workValid(hash, bits) ==> result == ErrNotEnoughWork
+//@   ensures [C02.bits-decodable,C08.bad-bits,C15.bits-decodable] !vb ==> result == ErrInvalidTarget
+//@   ensures [C02.work,C08.not-enough-work] vb && !wv ==> result == ErrNotEnoughWork
+//@   ensures [C03.orphan-split,C08.orphan-split] vb && wv && !pk && old(isSplitAfter(repo, hashOf(header))) ==> cause(result) == ErrWrongChain
+//@   ensures [C03.after-genesis,C08.after-genesis] vb && wv && !pk && !old(isSplitAfter(repo, hashOf(header))) && old(repo.genesisHash) == prev ==> cause(result) == ErrWrongChain
+//@   ensures [C08.unknown-parent] vb && wv && !pk && !old(isSplitAfter(repo, hashOf(header))) && old(repo.genesisHash) != prev ==> result == ErrUnknownHeader
+//@   ensures [C08.already-known] vb && wv && pk && known ==> result == nil && nochange()
+//@   ensures [C03.split-height,C08.wrong-chain] vb && wv && pk && !known && old(exists(j, 0, len(repo.branches), holderAt(repo.branches, header.PrevBlock, j) && splitRefused(repo, hashOf(header), heightVia(repo.branches, header.PrevBlock, j)))) ==> cause(result) == ErrWrongChain
+//@   ensures [C02.daa-undefined,C08.bad-bits] vb && wv && pk && !known && old(exists(j, 0, len(repo.branches), holderAt(repo.branches, header.PrevBlock, j) && !splitRefused(repo, hashOf(header), heightVia(repo.branches, header.PrevBlock, j)) && needsDAA(repo, heightVia(repo.branches, header.PrevBlock, j)) && !daaDefined(*repo.branches[j], heightVia(repo.branches, header.PrevBlock, j)))) ==> result != nil
+//@   ensures [C02.daa-bits,C08.bad-bits] vb && wv && pk && !known && old(exists(j, 0, len(repo.branches), holderAt(repo.branches, header.PrevBlock, j) && !splitRefused(repo, hashOf(header), heightVia(repo.branches, header.PrevBlock, j)) && needsDAA(repo, heightVia(repo.branches, header.PrevBlock, j)) && daaDefined(*repo.branches[j], heightVia(repo.branches, header.PrevBlock, j)) && bitsOf(daa(*repo.branches[j], heightVia(repo.branches, header.PrevBlock, j)), bitcoin.MaxBits) != header.Bits)) ==> cause(result) == ErrInvalidTarget
+//@   ensures [C02.accept-implies-daa] result == nil && pk && !known ==> old(forall(j, 0, len(repo.branches), holderAt(repo.branches, header.PrevBlock, j) && needsDAA(repo, heightVia(repo.branches, header.PrevBlock, j)) ==> daaDefined(*repo.branches[j], heightVia(repo.branches, header.PrevBlock, j)) && bitsOf(daa(*repo.branches[j], heightVia(repo.branches, header.PrevBlock, j)), bitcoin.MaxBits) == header.Bits))
+//@   ensures [C02.accept-implies-work] result == nil ==> vb && wv
+//@   ensures [C03.accept-implies-split] result == nil && pk && !known ==> old(forall(j, 0, len(repo.branches), holderAt(repo.branches, header.PrevBlock, j) ==> !splitRefused(repo, hashOf(header), heightVia(repo.branches, header.PrevBlock, j))))
+//@   ensures [C17.refused,C08.marked-invalid] result == nil && pk && !known ==> !old(markedInvalid(repo, hashOf(header)))
+//@   ensures [C08.too-deep] result == nil && pk && !known ==> old(forall(j, 0, len(repo.branches), holderAt(repo.branches, header.PrevBlock, j) ==> !tooDeep(repo, repo.branches[j], findH(repo.branches[j], header.PrevBlock), header.PrevBlock)))
+//@   ensures [C08.refusal-frame] result != nil && !errFrom(result, (*Repository).sendBranchUpdate) ==> nochange()
 //@   modifies all
 //@   loop 1
 //@     invariant (-1 <= rangeindex && rangeindex < len(repo.splits)) || (len(repo.splits) == 0 && rangeindex == -1)
+//@     invariant forall(s, 0, rangeindex+1, repo.splits[s].AfterHash != hash)
 //@   loop 2
 //@     invariant (-1 <= rangeindex && rangeindex < len(repo.splits)) || (len(repo.splits) == 0 && rangeindex == -1)
+//@     invariant forall(s, 0, rangeindex+1, !(repo.splits[s].Height == height && repo.splits[s].AfterHash == hash))
 //@   loop 3
 //@     invariant (-1 <= rangeindex && rangeindex < len(repo.invalidHashes)) || (len(repo.invalidHashes) == 0 && rangeindex == -1)
+//@     invariant forall(i, 0, rangeindex+1, repo.invalidHashes[i] != hash)
 //@   loop 4
 //@     modifies allchans(*wire.BlockHeader)
 //@     invariant (-1 <= rangeindex && rangeindex < len(repo.newHeadersChannels)) || (len(repo.newHeadersChannels) == 0 && rangeindex == -1)
